@@ -155,15 +155,19 @@ class DegreeAnalysis:
             elif isinstance(s, ast.If):
                 # isinstance(x, NDFrame) is decided by what x is here: a level series or a number
                 t = s.test
+                negated = False
+                while isinstance(t, ast.UnaryOp) and isinstance(t.op, ast.Not):      # `if not isinstance(...)`: the same test, arms swapped
+                    t, negated = t.operand, not negated
                 if isinstance(t, ast.Call) and isinstance(t.func, ast.Name) and t.func.id == "isinstance" and len(t.args) == 2 and isinstance(t.args[0], ast.Name) and "NDFrame" in ast.unparse(t.args[1]):
                     x = env.get(t.args[0].id)
+                    is_frame = None
                     if x is not None and x.kind == "num" and len(x.deg) == 1 and list(x.deg.values())[0] == 1:
-                        r = self._body(f, s.body, env)
-                        if r is not None:
-                            return r
-                        continue
-                    if x is not None and (x.kind == "lit" or (x.kind == "num" and not x.deg)):
-                        r = self._body(f, s.orelse, env)
+                        is_frame = True
+                    elif x is not None and (x.kind == "lit" or (x.kind == "num" and not x.deg)):
+                        is_frame = False
+                    if is_frame is not None:
+                        taken = s.body if (is_frame != negated) else s.orelse
+                        r = self._body(f, taken, env)
                         if r is not None:
                             return r
                         continue
@@ -197,6 +201,8 @@ class DegreeAnalysis:
         return result
 
     def _join(self, a: V, b: V, node) -> V:
+        if a.kind == "rate" and b.kind == "rate":
+            return a            # the same still-unresolved rate-or-level on both arms
         if a.kind == "rate" or b.kind == "rate":
             return FREE if (a.kind in ("rate", "lit") or (a.kind == "num" and not a.deg)) and (b.kind in ("rate", "lit") or (b.kind == "num" and not b.deg)) else V("other")
         if a.kind in ("lit", "idx", "bool"):
